@@ -268,8 +268,8 @@ def case(ctx, rng, idx, state):
             raise RuntimeError(f"harness: brute force found {len(same)} vectors, selection has {len(members)}")
     if nshell >= 2:
         ctx.count("multi_shell_sets")
-    if np.any(np.abs(bg).max(axis=0) >= 2 * mpa):
-        ctx.count("b_on_edge_of_library_search_box")
+    if np.any(np.abs(bg).max(axis=0) >= SEARCH_SUPERCELL * mpa):
+        ctx.count("b_beyond_2mp_index_box")
 
     # ---- neighbours: k + b = k_nb + G, exact integers
     kirr = list(range(NK)) if kptirr is None else kptirr
@@ -321,7 +321,7 @@ def case(ctx, rng, idx, state):
 if __name__ == "__main__":
     harness.main(
         PROP, "exploration", case, setup_fn=setup,
-        tiers=dict(quick=dict(cases=448, shards=8, time=100), thorough=dict(cases=8000, shards=16, time=900)),
+        tiers=dict(quick=dict(cases=240, shards=8, time=80), thorough=dict(cases=4000, shards=16, time=900)),
         rule="all 14 Bravais types (primitive cells of the centred ones and the simple = conventional ones) with random "
              "axis ratios, special ratios (accidental shell coincidences, hidden fcc/bcc/cubic symmetry, the "
              "rhombohedral/bct/face-centred lattices of finding F12) and mesh-compensated ratios, other primitive "
